@@ -138,6 +138,16 @@ class Puppy(Dog):
     pass
 
 
+class Route(Animal):
+    """a serialisable object that happens to be iterable (and sized): still an object, not a list"""
+
+    def __iter__(self):
+        return iter([1, 2])
+
+    def __len__(self):
+        return 2
+
+
 class Plain:
     pass
 '''
@@ -169,7 +179,7 @@ def h_objects():
         install_import(vm, "pyvc_synth_c18")
         tj, fj = vm.module_global(JS, "to_json"), vm.module_global(JS, "from_json")
         handed = []
-        for cname in ("Animal", "Dog", "Puppy"):
+        for cname in ("Animal", "Dog", "Puppy", "Route"):
             C = vm.loader.cls("pyvc_synth_c18", cname)
             # every class answers _from_json by recording which class it was called on
             vm.spec.stubs["SubclassJSONSerializer._from_json"] = lambda it, a, k: (handed.append((a[0], a[1])), ("instance-of", a[0]))[1]
@@ -280,6 +290,20 @@ def h_uuid_and_registry():
             vm.ev(st.value, fr)
         ok = dict_get(reg.fields["_serializers"], UUIDc) is ser and dict_get(reg.fields["_deserializers"], UUIDc) is de
         ctx.check("json_serializer::uuid-registered-with-its-own-pair", z3.BoolVal(ok), detail=repr(reg.fields))
+        # the registry answers for EXACTLY the registered type (a subclass registered with its own pair keeps it, whatever the
+        # order of registration; an unregistered subclass has none)
+        from pyvc.values import ExtClass
+        Base = ExtClass("demo.Base")
+        Sub = ExtClass("demo.Sub", bases=(Base,))
+        Other = ExtClass("demo.Other", bases=(Base,))
+        pairs = {}
+        for c_ in (Base, Sub):
+            pairs[c_] = (Builtin(f"ser-{c_.name}", lambda it, fr, a, k: None), Builtin(f"de-{c_.name}", lambda it, fr, a, k: None))
+            vm.call_method(reg, "register", c_, pairs[c_][0], pairs[c_][1])
+        got = [(vm.call_method(reg, "get_serializer", c_), vm.call_method(reg, "get_deserializer", c_)) for c_ in (Base, Sub, Other)]
+        ctx.check("JSONSerializableTypeRegistry::lookup-is-by-the-exact-type",
+                  z3.BoolVal(got[0][0] is pairs[Base][0] and got[0][1] is pairs[Base][1] and got[1][0] is pairs[Sub][0] and got[1][1] is pairs[Sub][1]
+                             and got[2] == (None, None)), detail=repr(got))
         # dispatch through the registry by exact type, both ways
         tj, fj = vm.module_global(JS, "to_json"), vm.module_global(JS, "from_json")
         j2 = vm.call(tj, [u], {})
